@@ -14,6 +14,8 @@ def impl_one(case):
     from socialchoicekit.deterministic_allocation import MaximumWeightMatching
     from socialchoicekit.profile_utils import ValuationProfile
     W = to_np(case["W"])
+    if case.get("dtype"):
+        W = W.astype(case["dtype"])      # integer utilities without NaN stored in a (possibly narrow, possibly unsigned) integer array
     rule = MaximumWeightMatching(zero_indexed=case.get("zero", True))
     if case.get("pre") is not None:
         # the same rule object and the same buffer are first used for another matrix, which is then overwritten in place
@@ -102,13 +104,13 @@ def judge(R, case, res, cert_ans):
         R.count("rule_object_and_buffer_reused_after_in_place_overwrite")
     has_nan = any(v is None for row in W for v in row)
     if "hang" in res:
-        R.violation("property_violation", "termination", ENTRY, {"W": W, "pre": case.get("pre")}, impl_output=f"no result within {res.get('deadline_s')} s",
+        R.violation("property_violation", "termination", ENTRY, {"W": W, "pre": case.get("pre"), "dtype": case.get("dtype")}, impl_output=f"no result within {res.get('deadline_s')} s",
                     oracle="non-termination (supervised worker killed)", config={"zero_indexed": fixer == 0})
         return
     if ref is None:
         R.count("infeasible")
         if "exc" not in res:
-            R.violation("property_violation", "raises when no assignment of acceptable pairs exists", ENTRY, {"W": W, "pre": case.get("pre")}, impl_output=res,
+            R.violation("property_violation", "raises when no assignment of acceptable pairs exists", ENTRY, {"W": W, "pre": case.get("pre"), "dtype": case.get("dtype")}, impl_output=res,
                         oracle={"hall_violator": A.hall_violator([[v is not None for v in r] for r in W], n)})
             return
         R.case(nontrivial_key=json.dumps(W), sample=None)
@@ -117,12 +119,12 @@ def judge(R, case, res, cert_ans):
         return
     sigma, u, v, opt = ref
     if "exc" in res:
-        R.violation("property_violation", "returns an assignment whenever one exists", ENTRY, {"W": W, "pre": case.get("pre")}, impl_output=res,
+        R.violation("property_violation", "returns an assignment whenever one exists", ENTRY, {"W": W, "pre": case.get("pre"), "dtype": case.get("dtype")}, impl_output=res,
                     oracle={"an_optimal_assignment": sigma, "value": fr(opt)})
         return
     cols = [c - fixer for c in res["cols"]]
     if sorted(cols) != list(range(n)) or any(F[i][cols[i]] is None for i in range(n)):
-        R.violation("property_violation", "one-to-one assignment using only acceptable pairs", ENTRY, {"W": W, "pre": case.get("pre")}, impl_output=res["cols"],
+        R.violation("property_violation", "one-to-one assignment using only acceptable pairs", ENTRY, {"W": W, "pre": case.get("pre"), "dtype": case.get("dtype")}, impl_output=res["cols"],
                     oracle="not a permutation of the items / uses a NaN pair")
         return
     val = sum(F[i][cols[i]] for i in range(n))
@@ -131,7 +133,7 @@ def judge(R, case, res, cert_ans):
     exact = case["exact"] if case.get("exact") is not None else exact_data(W)
     tol = Fraction(0) if exact else Fraction(1, 10 ** 9) * mag
     if opt - val > tol:
-        R.violation("property_violation", "total utility equals the maximum over all acceptable assignments", ENTRY, {"W": W, "pre": case.get("pre")},
+        R.violation("property_violation", "total utility equals the maximum over all acceptable assignments", ENTRY, {"W": W, "pre": case.get("pre"), "dtype": case.get("dtype")},
                     impl_output=res["cols"], oracle={"impl_value": fr(val), "better_assignment": [s + fixer for s in sigma], "its_value": fr(opt)})
         return
     nontriv = n >= 3 and (has_nan or len(set(x for row in F for x in row if x is not None)) < n * n)
@@ -184,7 +186,7 @@ def brute_lines(case, res):
 def judge_brute(R, case, res, answers):
     """implementation vs the model's brute-force optimum; nothing computed in Python is trusted here"""
     W = case["W"]
-    inp = {"W": W, "pre": case.get("pre")}
+    inp = {"W": W, "pre": case.get("pre"), "dtype": case.get("dtype")}
     opt = answers[0]
     if "hang" in res:
         return
@@ -266,6 +268,10 @@ def run(R):
             exact = exact and keeps
             R.count("scale=" + sname)
         c = {"W": W, "n": n, "zero": R.rng.random() < 0.5, "tag": tag, "exact": exact}
+        flat = [v for row in W for v in row]
+        if all(v is not None and float(v) == int(v) and 0 <= v <= 250 for v in flat) and R.rng.random() < 0.6:
+            c["dtype"] = R.rng.choice(["int64", "int32", "uint8", "uint16"] + (["int8"] if max(flat) <= 120 else []))
+            R.count("integer_matrix_storage:" + c["dtype"])
         if R.rng.random() < 0.25:
             c["pre"] = gen(R, n)[0]
         cases.append(c)
@@ -274,4 +280,5 @@ def run(R):
 
 def replay(R, rep):
     W = rep["input"]["W"]
-    run_cases(R, [{"W": W, "n": len(W), "zero": rep.get("config", {}).get("zero_indexed", True), "tag": "replay", "pre": rep["input"].get("pre")}], 10.0)
+    run_cases(R, [{"W": W, "n": len(W), "zero": rep.get("config", {}).get("zero_indexed", True), "tag": "replay", "pre": rep["input"].get("pre"),
+                   "dtype": rep["input"].get("dtype")}], 10.0)
